@@ -278,9 +278,15 @@ def kbits_binop(op, a, b):
     if not (isinstance(a, KBits) and isinstance(b, Int)):
         return None
     if op in ('Shr', 'ShrUnchecked') and b.v < 8:
-        return KBits((a.mask >> b.v) | (0xff & ~(0xff >> b.v)), a.val >> b.v, a.cleared >> b.v)
+        m_ = (a.mask >> b.v) | (0xff & ~(0xff >> b.v))
+        if m_ == 0xff and not (a.cleared >> b.v):
+            return Int((a.val & a.mask) >> b.v, 8)          # every remaining bit is known
+        return KBits(m_, a.val >> b.v, a.cleared >> b.v)
     if op in ('Shl', 'ShlUnchecked') and b.v < 8:
-        return KBits(((a.mask << b.v) & 0xff) | ((1 << b.v) - 1), (a.val << b.v) & 0xff, (a.cleared << b.v) & 0xff)
+        m_ = ((a.mask << b.v) & 0xff) | ((1 << b.v) - 1)
+        if m_ == 0xff and not ((a.cleared << b.v) & 0xff):
+            return Int(((a.val & a.mask) << b.v) & 0xff, 8)
+        return KBits(m_, (a.val << b.v) & 0xff, (a.cleared << b.v) & 0xff)
     if op == 'BitAnd':
         # bits where the constant is 0 become known 0
         mask = a.mask | (~b.v & 0xff)
